@@ -1,5 +1,5 @@
 (* Lemmas for C15 (Model/Registry.v) — the repaired getreader (`_myreaders = list(_readers)`). *)
-From PNC Require Import Base.Util Model.Registry.
+From PNC Require Import Base.Util Model.Registry Gen.RegistrySrc.
 
 Lemma result_eqb_eq a b : result_eqb a b = true -> a = b.
 Proof.
@@ -148,3 +148,127 @@ Proof.
   exists w_acc, w_reg, 6, 6, 3, 9, 5.
   destruct auto_equals_named_refuted_w as (A & B & C & D). repeat split; auto; try discriminate.
 Qed.
+
+(* ---- tie T: the step read off the source text is the model's step ------------------------------------------ *)
+Lemma source_is_model acc reg s : generic_step src_getreader acc reg s = impl_step acc reg s.
+Proof. destruct s as [e f|n f]; reflexivity. Qed.
+
+Lemma source_register_is_model reg n r : generic_register src_getreader reg n r = impl_register reg n r.
+Proof. unfold generic_register, impl_register. simpl. destruct (known n reg); reflexivity. Qed.
+
+(* ---- "first reader whose isMine accepts wins": relational specification of the loop ------------------------- *)
+Lemma first_accepting_selected (a : reader -> outcome) r : forall l,
+  first_accepting a l = Selected r <->
+  exists pre k post, l = pre ++ (k, r) :: post /\ (forall kr, In kr pre -> a (snd kr) = No) /\ a r = Yes.
+Proof.
+  induction l as [|[k0 r0] l IH]; simpl.
+  - split; [discriminate|]. intros (pre & k & post & E & _). destruct pre; discriminate.
+  - destruct (a r0) eqn:A0.
+    + rewrite IH. split.
+      * intros (pre & k & post & -> & Hp & Hr). exists ((k0, r0) :: pre), k, post. split; [reflexivity|]. split; auto.
+        intros kr [<-|H]; auto.
+      * intros (pre & k & post & E & Hp & Hr). destruct pre as [|p pre]; simpl in E.
+        -- inversion E; subst. congruence.
+        -- inversion E; subst. exists pre, k, post. split; [reflexivity|]. split; auto. intros kr H. apply Hp. right. exact H.
+    + split.
+      * intros H. injection H as ->. exists [], k0, l. split; [reflexivity|]. split; auto. intros kr [].
+      * intros (pre & k & post & E & Hp & Hr). destruct pre as [|p pre]; simpl in E.
+        -- inversion E; subst. reflexivity.
+        -- inversion E; subst. specialize (Hp (k0, r0) (or_introl eq_refl)). simpl in Hp. congruence.
+    + split; [discriminate|].
+      intros (pre & k & post & E & Hp & Hr). destruct pre as [|p pre]; simpl in E.
+      * inversion E; subst. congruence.
+      * inversion E; subst. specialize (Hp (k0, r0) (or_introl eq_refl)). simpl in Hp. congruence.
+Qed.
+
+Lemma first_accepting_raised (a : reader -> outcome) e : forall l,
+  first_accepting a l = Raised e <->
+  exists pre k r post, l = pre ++ (k, r) :: post /\ (forall kr, In kr pre -> a (snd kr) = No) /\ a r = Raise e.
+Proof.
+  induction l as [|[k0 r0] l IH]; simpl.
+  - split; [discriminate|]. intros (pre & k & r & post & E & _). destruct pre; discriminate.
+  - destruct (a r0) eqn:A0.
+    + rewrite IH. split.
+      * intros (pre & k & r & post & -> & Hp & Hr). exists ((k0, r0) :: pre), k, r, post. split; [reflexivity|]. split; auto.
+        intros kr [<-|H]; auto.
+      * intros (pre & k & r & post & E & Hp & Hr). destruct pre as [|p pre]; simpl in E.
+        -- inversion E; subst. congruence.
+        -- inversion E; subst. exists pre, k, r, post. split; [reflexivity|]. split; auto. intros kr H. apply Hp. right. exact H.
+    + split; [discriminate|].
+      intros (pre & k & r & post & E & Hp & Hr). destruct pre as [|p pre]; simpl in E.
+      * inversion E; subst. congruence.
+      * inversion E; subst. specialize (Hp (k0, r0) (or_introl eq_refl)). simpl in Hp. congruence.
+    + split.
+      * intros H. injection H as ->. exists [], k0, r0, l. split; [reflexivity|]. split; auto. intros kr [].
+      * intros (pre & k & r & post & E & Hp & Hr). destruct pre as [|p pre]; simpl in E.
+        -- inversion E; subst. congruence.
+        -- inversion E; subst. specialize (Hp (k0, r0) (or_introl eq_refl)). simpl in Hp. congruence.
+Qed.
+
+(* second clause, exact: auto-detection selects the named reader iff that reader is the first claimant of the
+   preference list *)
+Lemma auto_is_named_iff acc reg h e n f r :
+  lookup_last n reg = Some r ->
+  (snd (impl_step acc (impl_final acc reg h) (Auto e f)) = snd (impl_step acc (impl_final acc reg h) (Named n f))
+   <-> exists pre k post, prefer reg e = pre ++ (k, r) :: post
+                          /\ (forall kr, In kr pre -> acc (snd kr) f = No) /\ acc r f = Yes).
+Proof.
+  intros L. rewrite registry_unchanged. simpl. unfold named_result. rewrite L.
+  apply (first_accepting_selected (fun r0 => acc r0 f)).
+Qed.
+
+(* ---- registration -------------------------------------------------------------------------------------------- *)
+Lemma known_lookup_last n reg : known n reg = true <-> lookup_last n reg <> None.
+Proof.
+  induction reg as [|[k r] t IH]; simpl.
+  - split; [discriminate | congruence].
+  - destruct (lookup_last n t) eqn:E.
+    + split; [discriminate|]. intros _. apply orb_true_iff. right. apply IH. discriminate.
+    + destruct (Nat.eqb k n) eqn:Ek; simpl.
+      * split; [discriminate | auto].
+      * rewrite IH. reflexivity.
+Qed.
+
+Lemma register_keeps_lookup reg n r m :
+  lookup_last m reg <> None \/ m <> n -> lookup_last m (impl_register reg n r) = lookup_last m reg.
+Proof.
+  intros H. unfold impl_register. destruct (known n reg) eqn:K; auto. simpl.
+  destruct (lookup_last m reg) eqn:E; auto.
+  destruct (Nat.eqb n m) eqn:Enm; auto. apply Nat.eqb_eq in Enm. subst m.
+  destruct H as [H|H]; congruence.
+Qed.
+
+Lemma register_new_name reg n r : known n reg = false -> lookup_last n (impl_register reg n r) = Some r.
+Proof.
+  intros K. unfold impl_register. rewrite K. simpl.
+  destruct (lookup_last n reg) eqn:E.
+  - exfalso. assert (known n reg = true) by (apply known_lookup_last; congruence). congruence.
+  - rewrite Nat.eqb_refl. reflexivity.
+Qed.
+
+Lemma register_nodup reg n r : nodup_names reg = true -> nodup_names (impl_register reg n r) = true.
+Proof.
+  intros H. unfold impl_register. destruct (known n reg) eqn:K; auto. simpl. rewrite K. exact H.
+Qed.
+
+Lemma register_idempotent reg n r r' : impl_register (impl_register reg n r) n r' = impl_register reg n r.
+Proof.
+  unfold impl_register. destruct (known n reg) eqn:K.
+  - rewrite K. reflexivity.
+  - simpl. rewrite Nat.eqb_refl. reflexivity.
+Qed.
+
+(* with distinct names dict(_readers)[n] is the only pair named n: first and last lookup agree *)
+Lemma nodup_lookup_first_last reg n : nodup_names reg = true -> lookup_last n reg = lookup_first n reg.
+Proof.
+  induction reg as [|[k r] t IH]; simpl; auto. intros H. apply andb_true_iff in H as [H1 H2].
+  specialize (IH H2). destruct (Nat.eqb k n) eqn:E.
+  - apply Nat.eqb_eq in E. subst k. apply negb_true_iff in H1.
+    destruct (lookup_last n t) eqn:F; auto. exfalso.
+    assert (K : known n t = true). { apply known_lookup_last. rewrite F. discriminate. }
+    congruence.
+  - rewrite IH. destruct (lookup_first n t); reflexivity.
+Qed.
+
+Lemma class_created_nodup reg s l c : nodup_names reg = true -> nodup_names (impl_class_created reg s l c) = true.
+Proof. intros H. unfold impl_class_created. apply register_nodup, register_nodup, H. Qed.
